@@ -210,6 +210,9 @@ func TestVerif_C07_DataSolo(t *testing.T) {
 				op = "write"
 			}
 			where := fmt.Sprintf("step %d (%s)", i, op)
+			if s.w.elapsed() > 2*time.Second {
+				break // a stalled case could run into the 4 s transaction expiry: discarded below
+			}
 			switch op {
 			case "validate", "nominate":
 				l := s.ag.socks[rapid.IntRange(0, len(s.ag.socks)-1).Draw(rt, "l")]
